@@ -14,7 +14,8 @@ EXPLANATION = (
     "time taken from the Sync (one-step) or the follow-up (two-step), the request send time from this request and the receive time from "
     "the Sync datagram's timestamp; (R3) run makes one collect_response call per request with this request's id (the id put into "
     "new_request, a fresh sequence number per iteration) and send timestamp, and hands the controller exactly the two directed "
-    "measurements of that one result, only when a result arrived."
+    "measurements of that one result, only when a result arrived. All matching is on expanded values (local variable names are not "
+    "used; the request-state variable is found by its type)."
 )
 NOT_DECIDED = [
     "tokio/poll_fn plumbing (that the timeout future and the collector are polled as written) is taken from the source shape, not re-derived",
@@ -22,14 +23,25 @@ NOT_DECIDED = [
     "a server answering twice with the same ids within one request: the second answer is never read because collect_response returned; that the socket is dropped is Rust ownership, not a rule here",
 ]
 M = 'statime_csptp::source::'
-MSG = r'CsptpMessage::deref\(message\)'
+# expanded forms (no local names): the datagram, the parsed message, the response TLV, the receive timestamp
+RECV = r'\(\(Future::poll\(Pin::new_unchecked\(F::into_future\(ClientSocket::recv\(socket, \[0; \d+\]\)\)\), future::get_context\(resume\)\) as Ready\)\.0 as Ok\)\.0'
+PARSE = r'CsptpMessage::deserialize\(array::index\(\[0; \d+\], RangeTo\{end: %s\.bytes_read\}\)\)' % RECV
+MSG = r'CsptpMessage::deref\(\(%s as Ok\)\.0\)' % PARSE
+TLV = r'\(Iterator::find_map\(TlvSet::tlvs\(%s\.suffix\), closure:[^()]*\) as Some\)\.0' % MSG
+RECV_TS = r'\(%s\.timestamp as Some\)\.0' % RECV
+ST = r'\(\w+\{.*\} as %s\)'      # payload of the request-state variable in a given variant
+SAT = r'TimeInterval\{0: num::saturating_add\(%s\.response_correction\.0, %s\.header\.correction_field\.0\)\}'
+
+
+def full(rx):
+    return re.compile('^' + rx + '$', re.S)
 
 
 def base_guards(ctx, b, s, key):
-    ctx.guard(b, s, 'recv-ok', fact_is(r'^result$', ['Ok'], names=True), key=key + '|recv-ok')
-    ctx.guard(b, s, 'parsed', fact_is(r'^CsptpMessage::deserialize\(packet\)$', ['Ok'], names=True), key=key + '|deserialize-ok')
-    ctx.guard(b, s, 'domain', fact_cmp('Eq', r'^%s\.header\.domain_number$' % MSG, r'^self\.config\.domain$', names=True), key=key + '|domain-matches')
-    ctx.guard(b, s, 'sequence', fact_cmp('Eq', r'^%s\.header\.sequence_id$' % MSG, r'^request_id$', names=True), key=key + '|sequence-matches')
+    ctx.guard(b, s, 'recv-ok', fact_is(r'^\(Future::poll\(.*ClientSocket::recv\(.*\) as Ready\)\.0$', ['Ok']), key=key + '|recv-ok')
+    ctx.guard(b, s, 'parsed', fact_is('^' + PARSE + '$', ['Ok']), key=key + '|deserialize-ok')
+    ctx.guard(b, s, 'domain', fact_cmp('Eq', '^' + MSG + r'\.header\.domain_number$', r'^self\.config\.domain$'), key=key + '|domain-matches')
+    ctx.guard(b, s, 'sequence', fact_cmp('Eq', '^' + MSG + r'\.header\.sequence_id$', r'^request_id$'), key=key + '|sequence-matches')
 
 
 def r1(ctx):
@@ -44,84 +56,80 @@ def r2(ctx):
     rs = b.aggregates(r'source::RequestState$')
     init = [s for s in rs if s.data['rv']['variant'] == 'WaitingForResponse']
     ctx.check('state|initial', len(init) == 1 and not b.guard_strings(init[0].bb), 'initial state sites %d' % len(init), sample=len(init))
-    st_is = lambda v: fact_is(r'^state\b', [v], names=True)
+    stv = one(sorted({l['name'] for l in b.locals if l.get('name') and l['ty'].endswith('source::RequestState') and l.get('user')}), 'the RequestState variable of collect_response')
+    st_is = lambda v: fact_is(r'^%s\b' % re.escape(stv), [v], names=True)
+    body_is = lambda v: fact_is('^' + MSG + r'\.body$', [v])
     trans = [s for s in rs if s.data['rv']['variant'] != 'WaitingForResponse']
     ctx.check('state|transitions', sorted(s.data['rv']['variant'] for s in trans) == ['WaitingForFollowUp', 'WaitingForResponseHaveFollowUp'], 'transitions: %s' % [s.data['rv']['variant'] for s in trans], sample=len(trans))
+    two = fact_str('^' + MSG + r'\.header\.two_step_flag$')
+    one_ = fact_str('^!' + MSG + r'\.header\.two_step_flag$')
     for s in trans:
         v = s.data['rv']['variant']
         key = 'state->%s' % v
         base_guards(ctx, b, s, key)
         ctx.guard(b, s, 'from-initial', st_is('WaitingForResponse'), key=key + '|only-from-WaitingForResponse')
-        ctx.guard(b, s, 'body', fact_is(r'^%s\.body$' % MSG, ['Sync' if v == 'WaitingForFollowUp' else 'FollowUp'], names=True), key=key + '|message-kind')
-        f = dict(zip(s.data['rv']['fields'], [N(b.operand_term(o)) for o in s.data['rv']['ops']]))
+        ctx.guard(b, s, 'body', body_is('Sync' if v == 'WaitingForFollowUp' else 'FollowUp'), key=key + '|message-kind')
+        f = dict(zip(s.data['rv']['fields'], [S(b.operand_term(o)) for o in s.data['rv']['ops']]))
         if v == 'WaitingForFollowUp':
-            ctx.guard(b, s, 'two-step', fact_str(r'^%s\.header\.two_step_flag$' % MSG.replace('message', r'\(CsptpMessage::deserialize\(.*\) as Ok\)\.0')), key=key + '|two-step')
-            want = {'request_recv_time': 'response_tlv.req_ingress_timestamp', 'response_recv_time': 'recv_timestamp', 'request_correction': 'response_tlv.req_correction_field',
-                    'response_correction': 'CsptpMessage::deref(message).header.correction_field'}
+            ctx.guard(b, s, 'two-step', two, key=key + '|two-step')
+            want = {'request_recv_time': TLV + r'\.req_ingress_timestamp', 'response_recv_time': RECV_TS, 'request_correction': TLV + r'\.req_correction_field',
+                    'response_correction': MSG + r'\.header\.correction_field'}
         else:
-            want = {'remote_send_time': 'follow_up_message.precise_origin_timestamp', 'response_correction': 'CsptpMessage::deref(message).header.correction_field'}
+            want = {'remote_send_time': r'\(%s\.body as FollowUp\)\.0\.precise_origin_timestamp' % MSG, 'response_correction': MSG + r'\.header\.correction_field'}
         for k, w in want.items():
-            ctx.check(key + '|field:' + k, f.get(k) == w, '%s.%s = %s' % (v, k, f.get(k)), s.where(), sample=f.get(k))
+            ctx.check(key + '|field:' + k, full(w).match(f.get(k, '')) is not None, '%s.%s = %s' % (v, k, f.get(k, '')[-160:]), s.where(), sample=f.get(k, '')[-80:])
     ms = b.aggregates(r'source::CsptpRawMeasurement$')
     ctx.check('measurement|sites', len(ms) == 3, 'CsptpRawMeasurement construction sites: %d' % len(ms), sample=len(ms))
     kinds = {}
+    HF = ST % 'WaitingForResponseHaveFollowUp'
+    WF = ST % 'WaitingForFollowUp'
     for s in ms:
-        f = dict(zip(s.data['rv']['fields'], [N(b.operand_term(o)) for o in s.data['rv']['ops']]))
-        if f.get('response_send_time') == 'sync_message.origin_timestamp':
+        f = dict(zip(s.data['rv']['fields'], [S(b.operand_term(o)) for o in s.data['rv']['ops']]))
+        rst = f.get('response_send_time', '')
+        if full(r'\(%s\.body as Sync\)\.0\.origin_timestamp' % MSG).match(rst):
             kind = 'one-step-sync'
-        elif f.get('response_send_time') == 'remote_send_time':
+        elif full(HF + r'\.remote_send_time').match(rst):
             kind = 'sync-after-follow-up'
-        elif f.get('response_send_time') == 'follow_up_message.precise_origin_timestamp':
+        elif full(r'\(%s\.body as FollowUp\)\.0\.precise_origin_timestamp' % MSG).match(rst):
             kind = 'follow-up-after-sync'
         else:
-            kind = 'other:%s' % f.get('response_send_time')
+            kind = 'other'
         kinds[kind] = kinds.get(kind, 0) + 1
         key = 'measurement|' + kind
         base_guards(ctx, b, s, key)
         ctx.check(key + '|request_send_time', f.get('request_send_time') == 'send_timestamp', 'request_send_time = %s' % f.get('request_send_time'), s.where(), sample=f.get('request_send_time'))
-        two = fact_str(r'^\(CsptpMessage::deref\(.*\)\.header\.two_step_flag$|^CsptpMessage::deref\(.*\)\.header\.two_step_flag$')
-        one_ = fact_str(r'^!\(?CsptpMessage::deref\(.*\)\.header\.two_step_flag$')
         if kind == 'one-step-sync':
-            ctx.guard(b, s, 'sync', fact_is(r'^%s\.body$' % MSG, ['Sync'], names=True), key=key + '|message-kind')
+            ctx.guard(b, s, 'sync', body_is('Sync'), key=key + '|message-kind')
             ctx.guard(b, s, 'one-step', one_, key=key + '|not-two-step')
-            want = {'request_recv_time': 'response_tlv.req_ingress_timestamp', 'response_recv_time': 'recv_timestamp', 'request_correction': 'response_tlv.req_correction_field',
-                    'response_correction': 'CsptpMessage::deref(message).header.correction_field'}
+            want = {'request_recv_time': TLV + r'\.req_ingress_timestamp', 'response_recv_time': RECV_TS, 'request_correction': TLV + r'\.req_correction_field',
+                    'response_correction': MSG + r'\.header\.correction_field'}
         elif kind == 'sync-after-follow-up':
-            ctx.guard(b, s, 'sync', fact_is(r'^%s\.body$' % MSG, ['Sync'], names=True), key=key + '|message-kind')
+            ctx.guard(b, s, 'sync', body_is('Sync'), key=key + '|message-kind')
             ctx.guard(b, s, 'two-step', two, key=key + '|two-step')
             ctx.guard(b, s, 'have-follow-up', st_is('WaitingForResponseHaveFollowUp'), key=key + '|state')
-            want = {'request_recv_time': 'response_tlv.req_ingress_timestamp', 'response_recv_time': 'recv_timestamp', 'request_correction': 'response_tlv.req_correction_field',
-                    'response_correction': 'TimeInterval{0: num::saturating_add(response_correction.0, CsptpMessage::deref(message).header.correction_field.0)}'}
+            want = {'request_recv_time': TLV + r'\.req_ingress_timestamp', 'response_recv_time': RECV_TS, 'request_correction': TLV + r'\.req_correction_field',
+                    'response_correction': SAT % (HF, MSG)}
         elif kind == 'follow-up-after-sync':
-            ctx.guard(b, s, 'follow-up', fact_is(r'^%s\.body$' % MSG, ['FollowUp'], names=True), key=key + '|message-kind')
+            ctx.guard(b, s, 'follow-up', body_is('FollowUp'), key=key + '|message-kind')
             ctx.guard(b, s, 'have-sync', st_is('WaitingForFollowUp'), key=key + '|state')
-            want = {'request_recv_time': 'request_recv_time', 'response_recv_time': 'response_recv_time', 'request_correction': 'request_correction',
-                    'response_correction': 'TimeInterval{0: num::saturating_add(response_correction.0, CsptpMessage::deref(message).header.correction_field.0)}'}
+            want = {'request_recv_time': WF + r'\.request_recv_time', 'response_recv_time': WF + r'\.response_recv_time', 'request_correction': WF + r'\.request_correction',
+                    'response_correction': SAT % (WF, MSG)}
         else:
             want = {}
-            ctx.check(key + '|known-kind', False, 'measurement with send time from %s' % f.get('response_send_time'), s.where())
+            ctx.check(key + '|known-kind', False, 'measurement with send time from %s' % rst[-160:], s.where())
         for k, w in want.items():
-            ctx.check(key + '|field:' + k, f.get(k) == w, '%s = %s' % (k, f.get(k)), s.where(), sample=f.get(k))
+            ctx.check(key + '|field:' + k, full(w).match(f.get(k, '')) is not None, '%s = %s' % (k, f.get(k, '')[-200:]), s.where(), sample=f.get(k, '')[-80:])
     ctx.check('measurement|kinds', kinds == {'one-step-sync': 1, 'sync-after-follow-up': 1, 'follow-up-after-sync': 1}, 'measurement kinds %s' % kinds, sample=kinds)
-    # recv_timestamp / response_tlv come from this datagram
-    li = [i for i, l in enumerate(b.locals) if l.get('name') == 'recv_timestamp']
-    rt = [S(b.local_term(i)) for i in li]
-    ctx.check('recv_timestamp|source', len(rt) == 1 and re.search(r' as Ok\)\.0\.timestamp as Some\)\.0$', rt[0]) is not None, 'recv_timestamp = %s' % [x[-80:] for x in rt], sample=[x[-50:] for x in rt])
-    li = [i for i, l in enumerate(b.locals) if l.get('name') == 'response_tlv']
-    tl = [S(b.local_term(i)) for i in li]
-    ctx.check('response_tlv|source', len(tl) == 1 and re.match(r'^\(Iterator::find_map\(TlvSet::tlvs\(CsptpMessage::deref\(\(CsptpMessage::deserialize\(.*\) as Ok\)\.0\)\.suffix\), closure:.*\) as Some\)\.0$', tl[0]) is not None,
-              'response_tlv = %s' % [x[:100] for x in tl], sample=len(tl))
-    rets = b.returns()
     live = [s for s, v in ret_assigns(b)]
     ctx.check('return|one-site', len(live) == 1, 'return value assignments: %d' % len(live), sample=len(live))
     for s, v in ret_assigns(b):
         base_guards(ctx, b, s, 'return')
-        ok = v.count('CsptpRawMeasurement{') == 3 and v.startswith('measurement{')
+        ok = v.count('CsptpRawMeasurement{') >= 3 and re.match(r'^\w*\{', v) is not None
         ctx.check('return|is-one-of-the-measurements', ok, 'returns %s' % v[:120], s.where(), sample=v.count('CsptpRawMeasurement{'))
-    # the packet parsed is the received prefix of this datagram's buffer
-    de = one(b.calls(r'CsptpMessage::deserialize$'), 'deserialize call')
-    arg = S(b.call_args(de)[0])
-    ctx.check('deserialize|argument', re.match(r'^array::index\(\[0; \d+\], RangeTo\{end: \(.* as Ok\)\.0\.bytes_read\}\)$', arg) is not None, 'deserialize argument %s' % arg[:160], de.where(), sample=arg[:80])
+    de = b.calls(r'CsptpMessage::deserialize$')
+    ctx.check('deserialize|one-site', len(de) == 1 and full(PARSE).match(S(b.call_term(de[0].data)) if hasattr(b, 'call_term') else '') is not None or
+              (len(de) == 1 and full(r'array::index\(\[0; \d+\], RangeTo\{end: %s\.bytes_read\}\)' % RECV).match(S(b.call_args(de[0])[0])) is not None),
+              'deserialize argument %s' % [S(b.call_args(c)[0])[:160] for c in de], sample=len(de))
 
 
 def r3(ctx):
@@ -133,30 +141,36 @@ def r3(ctx):
     allcr = [x.npath for x in P.bodies_matching(r'^<?statime_csptp::') for c in x.calls(r'collect_response$')]
     ctx.check('collect_response|one-site', len(cr) == 1 and len(allcr) == 1, 'collect_response call sites: %s' % allcr, sample=len(allcr))
     nr = one(b.calls(r'CsptpMessage::new_request$'), 'new_request call')
+    SENT = r'\(\(Future::poll\(.*ClientSocket::send_event\(.*\) as Ready\)\.0 as Ok\)\.0'
     for c in cr:
-        args = [N(a) for a in b.call_args(c)]
-        ctx.check('collect_response|request_id', args[2] == 'request_id' and N(b.call_args(nr)[2]) == 'request_id', 'collect_response(.., %s, ..) vs new_request(.., %s)' % (args[2], N(b.call_args(nr)[2])), c.where(), sample=args[2])
-        ctx.check('collect_response|domain', N(b.call_args(nr)[1]) == 'self.config.domain', 'request domain %s' % N(b.call_args(nr)[1]), nr.where(), sample=N(b.call_args(nr)[1]))
+        rid_used, rid_sent = S(b.call_args(c)[2]), S(b.call_args(nr)[2])
+        # identity of the value, not only of its expansion: a mutable counter read before and after its increment expands to the same phi
+        same_binding = N(b.call_args(c)[2]) == N(b.call_args(nr)[2]) and re.match(r'^\w+$', N(b.call_args(c)[2])) is not None
+        ctx.check('collect_response|request_id', same_binding and rid_used == rid_sent and re.match(r'^\w+\{0 \| num::wrapping_add\(\w+, 1\)\}$', rid_used) is not None,
+                  'collect_response waits for id `%s`, the request carries `%s`' % (rid_used, rid_sent), c.where(), sample=rid_used)
+        ctx.check('collect_response|domain', S(b.call_args(nr)[1]) == 'self.config.domain', 'request domain %s' % S(b.call_args(nr)[1]), nr.where(), sample=S(b.call_args(nr)[1]))
         ts = S(b.call_args(c)[3])
-        ctx.check('collect_response|send_timestamp', re.search(r'ClientSocket::send_event\(', ts) is not None and re.search(r' as Ok\)\.0$', ts) is not None, 'send timestamp %s' % ts[-120:], c.where(), sample=ts[-60:])
-        ctx.guard(b, c, 'sent', fact_is(r'^result$', ['Ok'], names=True), key='collect_response|after-send-ok')
-    rid = [S(b.local_term(i)) for i, l in enumerate(b.locals) if l.get('name') == 'request_id']
-    ctx.check('request_id|fresh-per-iteration', rid == ['sequence_id{0 | num::wrapping_add(sequence_id, 1)}'], 'request_id = %s' % rid, sample=rid)
+        ctx.check('collect_response|send_timestamp', full(SENT).match(ts) is not None, 'send timestamp %s' % ts[-120:], c.where(), sample=ts[-60:])
+        ctx.guard(b, c, 'sent', fact_is(r'^\(Future::poll\(.*ClientSocket::send_event\(.*\) as Ready\)\.0$', ['Ok']), key='collect_response|after-send-ok')
     hm = b.calls(r'SourceController::handle_measurement$')
     allhm = [x.npath for x in P.bodies_matching(r'^<?statime_csptp::source') for c in x.calls(r'handle_measurement$')]
     ctx.check('handle_measurement|sites', len(hm) == 2 and len(allhm) == 2, 'handle_measurement call sites: %d (%d in module)' % (len(hm), len(allhm)), sample=len(allhm))
-    dirs = []
+    dirs, srcs = [], set()
+    RESULT = r'\(\(PollFn::poll\(.*\) as Ready\)\.0 as Some\)\.0'
     for c in hm:
-        ctx.guard(b, c, 'have-result', fact_is(r'^result$', ['Some'], names=True), key='handle_measurement|%s|result-arrived' % site_desc(b, c))
-        m = N(b.call_args(c)[1])
-        mm = re.match(r'^Measurement\{sender_id: self\.(\w+), receiver_id: self\.(\w+), sender_ts: source::convert_to_ntp\(source::add_correction\(measurement\.(\w+), measurement\.(\w+)\)\), '
-                      r'receiver_ts: source::convert_to_ntp\(measurement\.(\w+)\),', m)
-        dirs.append(mm.groups() if mm else m[:120])
+        ctx.guard(b, c, 'have-result', fact_is(r'^\(PollFn::poll\(.*\) as Ready\)\.0$', ['Some']), key='handle_measurement|%s|result-arrived' % site_desc(b, c))
+        m = S(b.call_args(c)[1])
+        mm = re.match(r'^Measurement\{sender_id: self\.(\w+), receiver_id: self\.(\w+), sender_ts: source::convert_to_ntp\(source::add_correction\((?P<m>.*?)\.(\w+), (?P=m)\.(\w+)\)\), '
+                      r'receiver_ts: source::convert_to_ntp\((?P=m)\.(\w+)\),', m, re.S)
+        if mm:
+            dirs.append((mm.group(1), mm.group(2), mm.group(4), mm.group(5), mm.group(6)))
+            srcs.add(mm.group('m'))
+        else:
+            dirs.append(m[:120])
     want = [('local_clock', 'remote_clock', 'request_send_time', 'request_correction', 'request_recv_time'), ('remote_clock', 'local_clock', 'response_send_time', 'response_correction', 'response_recv_time')]
     ctx.check('handle_measurement|directions', sorted(map(str, dirs)) == sorted(map(str, want)), 'measurements handed over: %s' % dirs, sample=[str(d) for d in dirs])
-    ms = {S(b.local_term(i)) for i, l in enumerate(b.locals) if l.get('name') == 'measurement'}
-    ctx.check('measurement|from-collect_response', len(ms) == 1 and all(re.search(r'PollFn::poll\(', x) and re.search(r' as Some\)\.0$', x) for x in ms), 'measurement = %s' % [x[-100:] for x in ms], sample=len(ms))
+    ctx.check('measurement|from-collect_response', len(srcs) == 1 and all(full(RESULT).match(x) for x in srcs), 'measurements are taken from %s' % [x[-100:] for x in srcs], sample=len(srcs))
 
 
 RULES = [r1, r2, r3]
-FLOORS = {'C44-R2': 60, 'C44-R3': 10}
+FLOORS = {'C44-R2': 60, 'C44-R3': 9}
